@@ -59,7 +59,7 @@ RULE = ('metainfo objects = valid torrents from the C05 grammar turned into Pyth
         'inside tuples), aliasing (one object at two positions) and fork (t = t.copy(), the untouched original is watched). '
         'First stream, additionally: write() of every document in 4 of 26 worlds where the OS refuses or takes fewer bytes '
         '(real RLIMIT_FSIZE = k around the size of dump(), injected ENOSPC after k bytes / EIO at close / EACCES at open, '
-        'symlink to /dev/full, existing file without overwrite)')
+        'symlink to a private full-device node (mknod 1,7), existing file without overwrite)')
 
 def _m_magnet_restores_name(case, observed, finding):
     """D06a, as narrow as the defect: a history case; the state was reached because magnet() / str(magnet()) itself added
@@ -378,7 +378,12 @@ def faulty_worlds(t, V, content, worlds):
         old = _world_old(w, n) if w['w'] != 'devfull' else None
         try:
             if w['w'] == 'devfull':
-                os.symlink('/dev/full', path)
+                # a private "full" device node next to the link, never the system's /dev/full: a change under test that
+                # resolves the link and removes or replaces its target must not be able to damage the machine
+                import stat as _stat
+                node = path + '.full-node'
+                os.mknod(node, _stat.S_IFCHR | 0o666, os.makedev(1, 7))
+                os.symlink(node, path)
             elif old is not None:
                 with open(path, 'wb') as fh:
                     fh.write(old)
@@ -396,8 +401,9 @@ def faulty_worlds(t, V, content, worlds):
             else:
                 after = None
         finally:
-            if os.path.lexists(path):
-                os.unlink(path)
+            for q in (path, path + '.full-node'):
+                if os.path.lexists(q):
+                    os.unlink(q)
         out.append({'result': {'ok': None} if 'ok' in res else res, 'after': after, 'k': k,
                     'old': None if old is None else old.hex()})
     return out
@@ -426,7 +432,7 @@ def _world_name(w, o):
     if w['w'] == 'inject-write':
         return 'the opened file raises ENOSPC after %d bytes, path %s' % (o['k'], 'holds a longer file' if o['old'] else 'is new')
     return {'inject-close': 'close() of the opened file raises EIO', 'inject-open': 'open() raises EACCES',
-            'devfull': 'the path is a symlink to /dev/full', 'exists-no-overwrite': 'the path holds a file, overwrite=False'}[w['w']]
+            'devfull': 'the path is a symlink to a private full-device node', 'exists-no-overwrite': 'the path holds a file, overwrite=False'}[w['w']]
 
 
 def _run_chunk(cases):
